@@ -44,7 +44,7 @@ LEVEL_NOTE = ("Trusted: sqlite3, the auto-stub/shims that let llama_agents.cli.c
 DESIGN_REF = "§5 C37"
 RULE = ("case = one generated operation sequence on a fresh config dir, invariant evaluated after every op; distinct = hash of the "
         "op list; non-trivial = at least one successful environment change AND a non-None active profile observed at some check")
-REQUIRED_REACH = ["state_check", "active_profile_check", "env_add", "env_switch", "env_delete_current", "env_delete_other",
+REQUIRED_REACH = ["state_check", "active_profile_check", "env_add", "env_switch", "env_switch_other_spelling", "env_delete_current", "env_delete_other",
                   "profile_create_current", "profile_create_noncurrent", "profile_select", "profile_update", "profile_delete",
                   "same_name_in_other_env_active", "reopen"]
 ASSUMPTIONS = [
@@ -88,8 +88,10 @@ def gen_op(rnd):
     elif name == "env_switch":
         op["env"] = rnd.randrange(len(ENVS))
         op["cli"] = rnd.random() < 0.5          # `llamactl auth env switch` also calls select_any_profile()
+        op["variant"] = rnd.choice([None] * 8 + ["slash", "upper", "space"])   # service-level call with another spelling of a known URL
     elif name == "env_delete":
         op["env"] = rnd.randrange(len(ENVS))
+        op["variant"] = rnd.choice([None] * 10 + ["slash", "upper"])
     elif name == "prof_create":
         op["name"] = rnd.randrange(len(TOKENS))
     elif name == "prof_create_oidc":
@@ -116,6 +118,16 @@ def gen_op(rnd):
 def gen_case(rnd, maxlen):
     n = rnd.randint(3, maxlen)
     return {"ops": [gen_op(rnd) for _ in range(n)]}
+
+
+def _spell(url, variant):
+    if variant == "slash":
+        return url + "/"
+    if variant == "upper":
+        return url.replace("https://", "https://").replace("example", "EXAMPLE").replace("cloud", "Cloud")
+    if variant == "space":
+        return url + " "
+    return url
 
 
 # ------------------------------------------------------------------ driver + oracle
@@ -213,7 +225,9 @@ def _run_case(case, acc, mods, w, asyncio):
                 last_pick = None
                 wrote = True
             elif kind == "env_switch":
-                url = ENVS[op["env"]]
+                url = _spell(ENVS[op["env"]], op.get("variant"))
+                if op.get("variant"):
+                    acc.hit("env_switch_other_spelling")
                 w.es.switch_environment(url)          # ValueError when unknown
                 acc.hit("env_switch")
                 last_pick = None
@@ -230,7 +244,7 @@ def _run_case(case, acc, mods, w, asyncio):
                             last_pick = chosen.id
                             acc.hit("profile_select")
             elif kind == "env_delete":
-                url = ENVS[op["env"]]
+                url = _spell(ENVS[op["env"]], op.get("variant"))
                 ok = w.es.delete_environment(url)
                 if ok:
                     if url == cur_before:
